@@ -218,6 +218,19 @@ def run(res, a):
                         viol.append(("the machine does not start at the entry label (streams differ at tick %d)" % div[0], meta))
                 else:
                     viol.append(("the simulated machine's external streams differ from the source's meaning at tick %d" % div[0], meta))
+    # the default configuration of cmd/basm (dynamical matching on): a mov of a literal that does not fit the
+    # smallest dynamic rsets variant
+    probe = ("%section c .romtext iomode:async\n  entry _start\n_start:\n  mov r0, 200\n  r2o r0, o0\n  j _start\n%endsection\n"
+             "%meta cpdef cpa romcode:c\n%meta iodef x type:io\n%meta ioatt x cp:cpa, type:output, index:0\n%meta ioatt x cp:bm, type:output, index:0\n"
+             "%meta bmdef global registersize:8\n")
+    pr = simlib.run_sims([{"bm": {"basm": probe, "nodyn": False}, "env": [{"in": [], "outrecv": [-1]}] * 6, "ticks": 6, "dump": "ext"}])[0]
+    res.count_case({"probe": "mov literal with dynamical matching"}, nontrivial=True)
+    if pr.get("err") or not any(t["out"] == [200] for t in pr.get("ticks", [])):
+        what = pr.get("err") or "output stream %s" % [t["out"] for t in pr.get("ticks", [])]
+        if "c05_mov_literal_dynamical_matching" in known:
+            res.known_finding("c05_mov_literal_dynamical_matching 'mov r0, 200' with dynamical matching enabled (the default of cmd/basm): %s" % what)
+        else:
+            viol.append(("'mov r0, 200' is not assembled to code that loads 200 when dynamical matching is enabled: %s" % what, {"source": {"text": probe, "nodyn": False}}))
     cov = res.coverage
     cov["rule"] = ("generated BASM sources: 1-3 processors, 3-12 instructions each over explicit opcodes and the four mov forms, 1-4 labels with forward "
                    "and backward j/jz, the entry directive first or elsewhere, sync or async iomode, register size 8/16/32, processors wired by ioatt "
